@@ -1276,6 +1276,8 @@ type T struct{ F int }
 			{"u", "e.go", "package u\n\nimport \"PREFIX/d\"\n\nfunc noNewline() { var t *d.T; t.F = 1 }\n\nvar last = d.T{}"},
 			{"u", "f.go", "package u; import \"PREFIX/d\"; var first = d.T{}; func oneLine() { var t *d.T; t.F = 1 }\n"},
 			{"u", "g.go", "package u\n\nimport \"PREFIX/d\"\n\nfunc lineDirectives() {\n\tvar t *d.T\n//line /nonexistent/x.go:99999\n\tt.F = 1\n//line g.go:1\n\tt.F = 2\n//line g.go:100000:7\n\tt.F = 3\n/*line :1:1*/ t.F = 4\n//line other.go:3\n\tt.F = 5\n}\n"},
+			// //line directives combined with @ignore comments in every placement (generated code carries both)
+			{"u", "h.go", "// @ignore TONL\npackage u\n\nimport \"PREFIX/d\"\n\n//line gen.tmpl:9000\nfunc lineAndIgnore() {\n\tvar t *d.T\n\tt.F = 1 // @ignore IMM01\n\t// @ignore IMM\n\tt.F = 2\n//line gen.tmpl:1\n\tt.F = 3 // @ignore ALL\n}\n\n//line other.tmpl:70000\nvar afterLine = d.T{} // @ignore CTOR01\n\n// @ignore CTOR\n//line third.tmpl:5\nvar afterLine2 = d.T{}\n"},
 		}},
 		{"shadowing", []c10P2File{{"d", "d.go", `package d
 
